@@ -45,11 +45,11 @@ Section KeyedProofs.
 
   Definition sound_variant : Prop := gx = true \/ keep = true.
 
-  Lemma conn_upd_none : forall s k (held' : key -> option ver) ent polls bc sub,
+  Lemma conn_upd_none : forall s k (held' : key -> option ver) ent polls bc sub keys,
     ConnInv s -> (forall k', k' <> k -> held' k' = s_held s k') ->
-    ConnInv (mkSt ent polls bc (upd (s_conn s) k None) sub held').
+    ConnInv (mkSt ent polls bc (upd (s_conn s) k None) sub held' keys).
   Proof.
-    intros s k held' ent polls bc sub H Hh k' ks Hc Hr. cbn in *.
+    intros s k held' ent polls bc sub keys H Hh k' ks Hc Hr. cbn in *.
     unfold upd in Hc. destruct (Nat.eqb k' k) eqn:E; [discriminate|].
     apply Nat.eqb_neq in E. rewrite (Hh k' E). apply H; auto.
   Qed.
@@ -111,7 +111,7 @@ Section KeyedProofs.
     - inversion H; subst. split; [exact HC|]. intros b p Hin Hd. cbn in Hin. apply in_remove_nth in Hin. eapply HB; eauto.
     - destruct (s_conn s k); inversion H; subst; [|split; auto]. split; [|exact HB].
       apply conn_upd_none; auto. intros k' Hk'. apply upd_other; auto.
-    - inversion H; subst. split; [|exact HB]. intros k ks Hc; discriminate.
+    - destruct (s_keys s); inversion H; subst; (split; [|exact HB]); [exact HC|intros k' ks' Hc; discriminate].
   Qed.
 
   Lemma inv_init : Inv init.
@@ -197,7 +197,7 @@ Section KeyedProofs.
     - destruct (s_conn s k) eqn:E; inversion H; subst; [left; cbn; apply upd_same|right; split; [rewrite E|]; reflexivity].
     - destruct (s_conn s k) eqn:E; inversion H; subst; [left; cbn; apply upd_same|right; split; [rewrite E|]; reflexivity].
     - destruct (s_ent s k) eqn:E; inversion H; subst; [left; cbn; apply upd_same|right; split; reflexivity].
-    - inversion H; subst. left. reflexivity.
+    - destruct (s_keys s); inversion H; subst; [right; split; reflexivity|left; reflexivity].
   Qed.
 
   (* an untracked key receives no update whatever is delivered *)
@@ -216,14 +216,72 @@ Section KeyedProofs.
     cbn. rewrite upd_other; auto. intros E. subst. congruence.
   Qed.
 
+  (* --- the connection's membership in the keyed hub *)
+  Definition KeysInv (s : st) : Prop := forall k, s_conn s k <> None -> In k (s_keys s).
+
+  Lemma in_add_tkey : forall k l x, In x (add_tkey k l) <-> x = k \/ In x l.
+  Proof.
+    intros k l x. unfold add_tkey. destruct (existsb (Nat.eqb k) l) eqn:E.
+    - split; [auto|]. intros [->|H]; auto. apply existsb_exists in E. destruct E as [y [Hy Ey]].
+      apply Nat.eqb_eq in Ey. subst; auto.
+    - cbn. split; intros [H|H]; auto.
+  Qed.
+
+  Lemma in_del_tkey : forall k l x, In x (del_tkey k l) <-> x <> k /\ In x l.
+  Proof.
+    intros k l x. unfold del_tkey. rewrite filter_In. rewrite negb_true_iff, Nat.eqb_neq. tauto.
+  Qed.
+
+  Lemma deliver_keys : forall s b dp1 s' ps, KeysInv s -> deliver s b dp1 = (s', ps) -> KeysInv s'.
+  Proof.
+    intros s b dp1 s' ps HK H. unfold deliver in H.
+    destruct (s_conn s (bc_key b)) as [ks|] eqn:Ec; [|inversion H; subst; auto].
+    destruct (Nat.leb (bc_ver b) (ks_ver ks)); inversion H; subst; auto.
+    intros k Hk. cbn in *. unfold upd in Hk. destruct (Nat.eqb k (bc_key b)) eqn:E.
+    - apply Nat.eqb_eq in E. subst. apply HK. congruence.
+    - apply HK; auto.
+  Qed.
+
+  Lemma step_keys : forall s a s' ps, KeysInv s -> step s a = (s', ps) -> KeysInv s'.
+  Proof.
+    intros s a s' ps HK H.
+    assert (Hdel : forall k0 ent polls bc sub held,
+              KeysInv (mkSt ent polls bc (upd (s_conn s) k0 None) sub held (del_tkey k0 (s_keys s)))).
+    { intros k0 ent polls bc sub held k Hk. cbn in *. unfold upd in Hk. apply in_del_tkey.
+      destruct (Nat.eqb k k0) eqn:E; [congruence|]. apply Nat.eqb_neq in E. split; auto. }
+    assert (Hadd : forall k0 ent polls bc sub held v,
+              KeysInv (mkSt ent polls bc (upd (s_conn s) k0 v) sub held (add_tkey k0 (s_keys s)))).
+    { intros k0 ent polls bc sub held v k Hk. cbn in *. unfold upd in Hk. apply in_add_tkey.
+      destruct (Nat.eqb k k0) eqn:E; [apply Nat.eqb_eq in E; auto|right; apply HK; auto]. }
+    destruct a as [|k fresh|k others|k|i bv prev|k|k v|i dp1|i|k others|]; cbn [Keyed.step] in H.
+    - destruct (s_sub s); inversion H; subst; auto. intros k' Hk; cbn in Hk; congruence.
+    - destruct (negb (s_sub s)); [inversion H; subst; auto|].
+      match type of H with (if ?c then _ else _) = _ => destruct c end; inversion H; subst; apply Hadd.
+    - destruct (s_conn s k); inversion H; subst; auto.
+    - destruct (s_ent s k); inversion H; subst; auto.
+    - split_step H; auto.
+    - destruct (s_ent s k); inversion H; subst; auto.
+    - split_step H; auto.
+    - destruct (nth_error (s_bc s) i) as [b|]; [|inversion H; subst; auto].
+      eapply deliver_keys; [|exact H]. exact HK.
+    - inversion H; subst; auto.
+    - destruct (s_conn s k); inversion H; subst; auto.
+    - destruct (s_keys s) eqn:Ek; inversion H; subst; intros k' Hk; cbn in Hk; [apply HK in Hk; rewrite Ek in Hk; auto|congruence].
+  Qed.
+
+  Lemma keys_init : KeysInv init.
+  Proof. intros k H; cbn in H; congruence. Qed.
+
   (* --- epoch flip *)
-  Lemma epoch_flip_unsubscribes : forall s s' ps,
+  Lemma epoch_flip_unsubscribes : forall s s' ps k0,
+    KeysInv s -> s_conn s k0 <> None ->
     step s AEpochFlip = (s', ps) ->
-    s_sub s' = false /\ (forall k, s_conn s' k = None) /\ (s_sub s = true -> ps = [PUnsub]) /\
+    s_sub s' = false /\ (forall k, s_conn s' k = None) /\ ps = [PUnsub] /\
     (forall k e, s_ent s' k = Some e -> e_ver e = 0 /\ e_data e = false).
   Proof.
-    intros s s' ps H. cbn in H. inversion H; subst; clear H. cbn.
-    split; auto. split; auto. split; [intros E; rewrite E; reflexivity|].
+    intros s s' ps k0 HK Hk0 H. cbn in H. pose proof (HK k0 Hk0) as Hin.
+    destruct (s_keys s) as [|x t]; [destruct Hin|]. inversion H; subst; clear H. cbn.
+    split; auto. split; auto. split; auto.
     intros k e He. destruct (s_ent s k); inversion He; subst; auto.
   Qed.
 
